@@ -13,6 +13,10 @@ Decided (structural):
    sites below are found by the same call scan).
 Inventory, reported but not armed: every iteration over a HashMap / HashSet with an automatic class
 (order-insensitive sink vs order-exposed).
+ (round 4, shared) the meet of two domains is the exact set intersection (merge discipline and
+   interval cases of FiniteDomain::intersect, with C18) - so hash-ordered domain updates commute;
+   solving a conjunction parks its first goal (with C07) - so n answers of an infinite producer are
+   reachable.
 """
 import hirwalk
 import streams
@@ -266,3 +270,15 @@ def run(ctx, fb, cfg):
     check_lazy(ctx, lib, R + "K1K6.lazy")
     inv = check_foreign(ctx, lib, R + "K1.no-foreign-nondeterminism")
     inventory(ctx, lib, inv)
+    # shared: the order in which hash iteration feeds domain updates is harmless only because the
+    # meet of two domains is the exact set intersection (commutative, associative); and the first n
+    # answers of an infinite producer are reachable only because solving a conjunction parks its
+    # first goal instead of running it (Conde / Closure / Anyo solve every clause before returning)
+    import C07
+    import C18
+
+    C18.check_merge(ctx, lib, R + "K6.domain-meet-is-order-free", "intersect")
+    C18.check_intervals(ctx, lib, R + "K6.domain-meet-is-order-free")
+    for f in ("crate::operator::conj::Conj::new", "crate::operator::conj::DFSConj::new", "crate::operator::conj::InferredConj::new"):
+        C07.check_new_never_identity(ctx, lib, R + "K3.conjunction-parks-first-goal", f)
+    C07.check_suspension(ctx, lib, R + "K1.conjunction-parks-first-goal")
